@@ -197,7 +197,7 @@ class NeutronModel(object):
             self.energy_source = 'source text of nsf_tables.py'
             self.energy_source_note = None
             # the in-memory literal must be the same data as the source text (integrity of the reader)
-            self.energy_source_matches_literal = all(live[k] == from_source[k] for k in live)
+            self.energy_source_matches_literal = all(sorted(live[k]) == sorted(from_source[k]) for k in live)   # same rows, any order
         else:
             self.energy, self.energy_order = live, order
             self.energy_source = 'nsf_tables.ENERGY_DEPENDENT_TABLES in memory'
@@ -574,7 +574,10 @@ def watch_entry(ctx, reach, obj, label, requirements=None):
     """Entry counter `reach.<label>` on the code object of *obj*; None / no code object -> waived, noted."""
     f = function_of(obj) if obj is not None else None
     if f is None:
-        anchor_missing(ctx, 'entry counter %s' % label, ['reach.' + label] if requirements is None else requirements,
+        requirements = ['reach.' + label] if requirements is None else list(requirements)
+        if obj is None and requirements and all(ctx.counters.get('anchor_missing.' + r, 0) for r in requirements):
+            return False                       # already reported as absent by private()
+        anchor_missing(ctx, 'entry counter %s' % label, requirements,
                        why='has no code object to watch in this source tree')
         return False
     reach.watch(f, label)
